@@ -25,6 +25,7 @@ import (
 
 	"github.com/blinklabs-io/gouroboros/ledger/common"
 	"github.com/blinklabs-io/gouroboros/ledger/conway"
+	"github.com/blinklabs-io/gouroboros/ledger/dijkstra"
 	"github.com/blinklabs-io/gouroboros/ledger/shelley"
 	mockledger "github.com/blinklabs-io/ouroboros-mock/ledger"
 )
@@ -160,10 +161,33 @@ func runC33(op string) string {
 	if txEra != "conway" && txEra != "dijkstra" {
 		return "bad-op"
 	}
-	raw := g1Envelope(txEra, cbMap(kv...), cbMap(), valid, nil, 4, 0)
-	tx, derr := g1DecodeTx(txEra, raw)
-	if derr != nil {
-		return "decode-err"
+	var tx common.Transaction
+	if txEra == "dijkstra" && !valid {
+		// the Dijkstra decoder refuses is_valid = false: build the struct directly, so that a
+		// phase-2-invalid Dijkstra transaction is an input of the rule list as well
+		t := &dijkstra.DijkstraTransaction{TxIsValid: false}
+		t.Body.TxWithdrawals = map[*common.Address]uint64{}
+		for j := 0; j < k; j++ {
+			p := strings.Split(f[6+j], ":")
+			amt, _ := strconv.ParseUint(p[1], 10, 64)
+			ab := append([]byte{0xe1}, c33Hash(p[0][0], j)...)
+			if p[0][0] == 's' {
+				ab[0] = 0xf1
+			}
+			a, err := common.NewAddressFromBytes(ab)
+			if err != nil {
+				return "bad-op"
+			}
+			t.Body.TxWithdrawals[&a] = amt
+		}
+		tx = t
+	} else {
+		raw := g1Envelope(txEra, cbMap(kv...), cbMap(), valid, nil, 4, 0)
+		var derr error
+		tx, derr = g1DecodeTx(txEra, raw)
+		if derr != nil {
+			return "decode-err"
+		}
 	}
 	if len(tx.Withdrawals()) != k || tx.IsValid() != valid {
 		return "build-mismatch"
@@ -188,25 +212,33 @@ func runC33(op string) string {
 	if era == "conway-dpp" {
 		pp = g1Pparams("dijkstra", g1PP{MinFeeA: 44, MinFeeB: 155381, MaxTxSize: 16384, Major: uint(pv)})
 	}
-	res := "ok"
-	for _, rule := range g1Rules(txEra) {
-		e := safeRule(rule, tx, 0, ls, pp)
-		if e == nil {
-			continue
+	verdict := func() string {
+		res := "ok"
+		for _, rule := range g1Rules(txEra) {
+			e := safeRule(rule, tx, 0, ls, pp)
+			if e == nil {
+				continue
+			}
+			var e1 shelley.WithdrawalFromUnregisteredRewardAccountError
+			var e2 conway.DRepDelegationStateUnavailableError
+			var e3 conway.WithdrawalNotDelegatedToDRepError
+			switch {
+			case errors.As(e, &e1):
+				res = "unreg"
+			case errors.As(e, &e2):
+				res = "unavail"
+			case errors.As(e, &e3):
+				res = "notdeleg"
+			case errors.Is(e, lookupErr):
+				res = "lookuperr"
+			}
 		}
-		var e1 shelley.WithdrawalFromUnregisteredRewardAccountError
-		var e2 conway.DRepDelegationStateUnavailableError
-		var e3 conway.WithdrawalNotDelegatedToDRepError
-		switch {
-		case errors.As(e, &e1):
-			res = "unreg"
-		case errors.As(e, &e2):
-			res = "unavail"
-		case errors.As(e, &e3):
-			res = "notdeleg"
-		case errors.Is(e, lookupErr):
-			res = "lookuperr"
-		}
+		return res
 	}
-	return res
+	// validation is a function of its arguments: a second run gives the same verdict
+	v1 := verdict()
+	if v2 := verdict(); v2 != v1 {
+		return "IMPURE " + v1 + " then " + v2
+	}
+	return v1
 }
